@@ -286,7 +286,7 @@ FIXED_JOB = [{"k": "cmd", "cmd": i, "a": i, "b": i + 1} for i in range(6)]
 
 
 def run_shard(ctx):
-    n = 70 if ctx.tier == "quick" else 500
+    n = 70 if ctx.tier == "quick" else 1500
 
     def body(case):
         cl = set()
